@@ -115,6 +115,9 @@ THEOREMS = [P + n for n in [
     "normG_fragment", "norm_fragment_string", "norm_fragment_string_rel",
     "norm_surrounding_ws_string", "norm_clean_string",
     "normG_tracking_item", "norm_tracking_item_string", "norm_tracking_item_string_rel",
+    "normG_tracking_item_first", "norm_tracking_item_first_string", "norm_tracking_item_first_string_rel",
+    "normG_tracking_item_alone", "norm_tracking_item_alone_string", "norm_tracking_item_alone_string_rel",
+    "normG_escape_spelling", "norm_escape_spelling_string", "norm_escape_spelling_string_rel",
     "normG_query_permutation", "norm_query_permutation_string", "norm_query_permutation_string_rel",
     "normG_amp_semicolon_partial", "norm_amp_semicolon_string_partial", "norm_amp_semicolon_string_rel_partial",
 ]]
@@ -794,14 +797,14 @@ UNPROVED = (
     "start with 'amp;' — fullAmpSemicolon_fails; outside the family). norm_query_permutation needs 'no item starts with amp;' when the "
     "repair is on (the repair treats the first item differently). STRING LEVEL (Props/C04Whole.lean): "
     "normalizeUrlString(T u) = normalizeUrlString(u) is proved for scheme swap / removal, userinfo, explicit 80 / 443, host case, "
-    "leading irrelevant label, trailing slash, index name, non-routing fragment, tracking item after the first, permutation, '&amp;' "
-    "(partial as above) for every pair u, T u whose cleaned, resolved forms are strings of the grammar class NormBridge.UrlG.wf "
+    "leading irrelevant label, trailing slash, index name, non-routing fragment, tracking item at any position / alone, permutation, "
+    "'&amp;' (partial as above), escape spelling of path / query / fragment, for every pair u, T u whose cleaned, resolved forms are strings of the grammar class NormBridge.UrlG.wf "
     "(letters{1,64}:// | // | nothing-and-not-protocol-like; userinfo without /?#[]; host without /?#@:[] or an IP literal [h] accepted by the model's bracket check; port text without "
     "/?#@[]; absolute or empty path without ?#; query without #) with a port text that is a port; whitespace / control characters "
     "for every string that parses. Witnesses outside the class (C04Whole, by evaluation): 'http://a/b@a.com/' (userinfo with '/'), "
     "'x://a.com' (bare string that starts like a protocol), 'http://u@a.com:x/' (port text that is no port: returned unchanged). "
-    "Not in the class, hence oracle + correspondence only: brackets in the userinfo, IP literals with an IPv4 tail, relative paths, amp- prefix and escape-spelling "
-    "T on strings (component level only), platform_aware. Not proved, explored on every run by oracle + "
+    "Not in the class, hence oracle + correspondence only: brackets in the userinfo, IP literals with an IPv4 tail, relative paths, the amp- prefix "
+    "on strings (component level only), platform_aware. Not proved, explored on every run by oracle + "
     "correspondence of both spellings: (i) that the hand model of urlsplit + accessors IS CPython's (compared, C01/C02 parse_url "
     "streams and normalize_whole here); (ii) invariance of infer_redirection itself under the family (KF-C04-1 = D29: hints are searched in "
     "the raw string) — the theorems cover the function after the pre-step (norm_redirect_prestep is exact); (iii) "
